@@ -209,8 +209,12 @@ def _plc_check(a):
 
     prop = [[tuple(p) for p in poly] for poly in a["property"]]
     nogo = [[tuple(p) for p in poly] for poly in a["no_go"]]
+    # outlines may also be given as closed rings (first vertex repeated at the end): the tool gets that form, the oracle the plain vertex list
+    closed = a.get("closed")
+    prop_in = [p + [p[0]] for p in prop] if closed in ("property", "both") else prop
+    nogo_in = [p + [p[0]] for p in nogo] if closed in ("no_go", "both") else nogo
     try:
-        out, _descr = polygonal_land_constraint(a["b_min"], a["b_max_x"], a["b_max_y"], prop, nogo)
+        out, _descr = polygonal_land_constraint(a["b_min"], a["b_max_x"], a["b_max_y"], prop_in, nogo_in)
     except ValueError:
         return True, {"outcome": "ValueError"}
     tol = 0.01
@@ -272,8 +276,9 @@ def _plc_gen(rng):
     if rng.random() < 0.6:
         x0, y0 = rng.uniform(2, w / 3), rng.uniform(2, h / 3)
         nogo.append([(x0, y0), (x0 + w / 4, y0), (x0 + w / 4, y0 + h / 4), (x0, y0 + h / 4)])
-    return {"property": prop, "no_go": nogo, "b_min": rng.choice([4.0, 5.0]), "b_max_x": rng.choice([8.0, 10.0]), "b_max_y": rng.choice([8.0, 12.0])}
+    return {"property": prop, "no_go": nogo, "b_min": rng.choice([4.0, 5.0]), "b_max_x": rng.choice([8.0, 10.0]), "b_max_y": rng.choice([8.0, 12.0]),
+            "closed": rng.choice([None, None, None, "property", "no_go", "both"])}
 
 
 native(f"{DM}:polygonal_land_constraint", _plc_check, _plc_gen, None,
-       bound="rectangular, L-shaped, triangular and two-outline properties in both orientations, optional rectangular no-go zone, spacings 4..12 m; exact rational classification oracle; soundness, completeness per grid field, ordering")
+       bound="rectangular, L-shaped, triangular and two-outline properties in both orientations, optional rectangular no-go zone, outlines as vertex lists or as closed rings, spacings 4..12 m; exact rational classification oracle; soundness, completeness per grid field, ordering")
